@@ -22,8 +22,9 @@ RULE = ("a seeded valid document (all dtypes, ids, cardinalities, nesting) is sa
         "version) as XML / JSON / YAML, the stored bytes are damaged by a plan of 1-3 storage faults "
         "(truncate, zero, garbage, bitflip biased into text/scalars, drop/dup/swap of line ranges "
         "aligned or unaligned to records, torn, stale) and the file is read back through every "
-        "reader entry point in strict and lenient mode. distinct = distinct (format, fault kinds, "
-        "outcome classes of the entry points) tuples")
+        "reader entry point in strict and lenient mode; a small slice reads resource-limit shapes (valid "
+        "XML nested 100-3000 levels). distinct = distinct (format, fault kinds, outcome classes of the "
+        "entry points) tuples")
 COMPONENTS = {
     "real": ["odml.tools.xmlparser", "odml.tools.dict_parser", "odml.tools.odmlparser", "odml.fileio",
              "lxml / libxml2", "json", "PyYAML", "tmpfs file system"],
@@ -37,7 +38,8 @@ LEVEL_TEXT = ("Seeded exploration of the reader as the component that consumes a
               "ParserException (InvalidVersionException for another version) and returns in time; "
               "lenient mode never raises on text that is still well-formed odML 1.1; JSON/YAML: the "
               "same for the dict reader whenever the damaged text still decodes to an odML-shaped "
-              "dictionary; single faults confined to one attribute record must leave every other "
+              "dictionary; single faults confined to one attribute record (XML, JSON, YAML), repeating "
+              "exactly one complete element, or dropping an empty child list must leave every other "
               "object in the lenient result; every returned document is a well-formed tree with "
               "unique names and canonical ids.")
 LEVEL_NOTE = ("PARTIAL: only fault-derived inputs. Structural shapes no storage fault produces (wrong "
